@@ -52,6 +52,9 @@ class _Run:
 
     # -- recording ---------------------------------------------------------------------------
     def ev(self, actor: str, kind: str, op: str, detail: Any = None) -> int:
+        if op == "recv" and not (isinstance(detail, tuple) and len(detail) == 2
+                                 and isinstance(detail[0], str) and isinstance(detail[1], int)):
+            detail = f"<foreign {type(detail).__name__}>"   # never let an address reach the trace
         self.seq += 1
         self.events.append((self.seq, actor, kind, op, detail))
         return self.seq
